@@ -115,6 +115,14 @@ class SetM:
         self.inserts = []
 
 
+class NamespaceM:
+    """threading.local() / types.SimpleNamespace(): a bag of attributes (one thread is modelled, so thread-local state is
+    plain state that survives from one call to the next)."""
+    def __init__(self, stubs=None, **fields):
+        self.fields = dict(fields)
+        self.stubs = dict(stubs or {})      # harness-supplied methods: name -> callable(interp, *args)
+
+
 class BoolArrayM:
     """1-d boolean array: list of python bools / z3 Bools."""
     def __init__(self, bits):
@@ -230,6 +238,15 @@ class Models:
             if attr == 'dtype' and isinstance(obj, IndexArrayM):
                 return obj.dtype
             return I.ModelMethod(obj, attr)
+        if isinstance(obj, NamespaceM):
+            if attr == '__dict__':
+                return obj.fields
+            if attr in obj.stubs:
+                return I.ModelMethod(obj, attr)
+            if attr in obj.fields:
+                return obj.fields[attr]
+            ip.raise_exc('AttributeError')
+            return UNSET
         if isinstance(obj, I.SymSlice):
             return getattr(obj, attr)
         if isinstance(obj, np.dtype):
@@ -244,6 +261,11 @@ class Models:
         raise CannotEncode(f'attribute {attr} of {type(obj).__name__}')
 
     def setattr(self, obj, attr, value, guard):
+        if isinstance(obj, NamespaceM):
+            if guard is True or attr in obj.fields:
+                obj.fields[attr] = ite(guard, value, obj.fields.get(attr, UNSET))
+                return
+            raise CannotEncode('conditional creation of an attribute')
         raise CannotEncode(f'attribute assignment on {type(obj).__name__}')
 
     def truth(self, v):
@@ -475,13 +497,28 @@ class Models:
                     return obj[slice(idx.start, idx.stop, idx.step)]
             return self.seq_getitem(self.as_plain(obj), idx)
         if isinstance(obj, dict):
-            return obj[idx]
+            key = self.dict_key(idx)
+            if key not in obj:
+                ip.raise_exc('KeyError')
+                return UNSET
+            return obj[key]
         if isinstance(obj, DenseBoolM):
             return self.dense_member(obj, idx)
         raise CannotEncode(f'subscript of {type(obj).__name__}')
 
     def setitem(self, obj, idx, value):
         ip = self.ip
+        if isinstance(obj, DenseBoolM) and isinstance(idx, (I.SymSlice, slice)):
+            # arr[:] = False: everything inserted so far is present afterwards only on paths that do not get here
+            if not all(x is None for x in (idx.start, idx.stop, idx.step)):
+                raise CannotEncode('partial slice assignment on a boolean array')
+            tv = ip.truth(value)
+            if tv is not False:
+                raise CannotEncode('boolean array filled with a non-False value')
+            g = ip.active()
+            obj.inserts = [(simp_bool(land(gi, lnot(g))), v, f) for gi, v, f in obj.inserts]
+            obj.inserts = [t for t in obj.inserts if t[0] is not False]
+            return
         if isinstance(obj, DenseBoolM):
             g = ip.active()
             tv = ip.truth(value)
@@ -497,7 +534,21 @@ class Models:
             if isinstance(idx, int) and ip.active() is True:
                 obj[idx] = value
                 return
+        if isinstance(obj, dict):
+            key = self.dict_key(idx)
+            g = ip.active()
+            if g is True or key in obj:
+                obj[key] = ite(g, value, obj.get(key, UNSET))
+                return
+            raise CannotEncode('conditional creation of a dict entry')
         raise CannotEncode(f'subscript store on {type(obj).__name__}')
+
+    def dict_key(self, idx):
+        if isinstance(idx, CVal) and idx.concrete:
+            return int(idx.term)
+        if isinstance(idx, (SInt, CVal, SymSeq)) or is_sym(idx):
+            raise CannotEncode('symbolic dict key')
+        return idx
 
     def dense_member(self, obj, idx):
         v = val_bv64(idx)
@@ -651,6 +702,12 @@ class Models:
             if args:
                 raise CannotEncode('set(iterable)')
             return SetM()
+        if fn is dict:
+            if args and not (len(args) == 1 and isinstance(args[0], dict)):
+                raise CannotEncode('dict(iterable)')
+            d = dict(args[0]) if args else {}
+            d.update(kwargs)
+            return d
         if fn is int:
             (x,) = args
             if isinstance(x, (SInt, CVal)):
@@ -760,6 +817,10 @@ class Models:
         key = (fn.mod, fn.attr)
         if key == ('cython.parallel', 'prange'):
             return self.call(range, args[:1], {})
+        if key in (('threading', 'local'), ('types', 'SimpleNamespace')):
+            o = NamespaceM()
+            o.fields.update(kwargs)
+            return o
         if fn.mod == 'numpy':
             a = fn.attr
             if a == 'dtype':
@@ -832,7 +893,7 @@ class Models:
 
     def call_method(self, obj, name, args, kwargs):
         ip = self.ip
-        if isinstance(obj, I.Instance) and name in obj.stubs:
+        if isinstance(obj, (I.Instance, NamespaceM)) and name in obj.stubs:
             return obj.stubs[name](ip, *args, **kwargs)
         if isinstance(obj, BoolArrayM):
             if name == 'any':
@@ -854,6 +915,11 @@ class Models:
         if isinstance(obj, SetM):
             if name == 'add':
                 obj.inserts.append((ip.active(), args[0]))
+                return None
+            if name == 'clear':
+                g = ip.active()
+                obj.inserts = [(simp_bool(land(gi, lnot(g))), v) for gi, v in obj.inserts]
+                obj.inserts = [t for t in obj.inserts if t[0] is not False]
                 return None
             raise CannotEncode(f'set.{name}')
         if isinstance(obj, IndexArrayM):
